@@ -50,7 +50,14 @@ std::vector<nix::Variant> concrete(const std::string &t, const json &s, long bad
     return v;
 }
 
-struct S { nix::File f; nix::Section sec; nix::Property p; std::string path, type; long seed; };
+struct S { nix::File f; nix::Section sec; nix::Property p; std::string path, type; long seed; std::string unitText; long unitCode = 0; };
+// Property units are free text (no blanks): the abstract unit codes 1 / 2 stand for a rotating dictionary of concrete strings, and
+// the string read back must be, character for character, the one assigned last
+std::string unitText(long code, long k) {
+    static const char *U1[] = {"mV", "\xc2\xb5V", "mumol/l", "kg*m^2/s^3", "%", "mu"};
+    static const char *U2[] = {"arbitrary", "stimuli/s", "a.u.", "\xc2\xb0" "C", "dB(\xc2\xb5Pa)", "MUmu"};
+    return code == 1 ? U1[(size_t) k % 6] : U2[(size_t) k % 6];
+}
 
 json observeVia(S &s, nix::Property &P, const json &exp) {
     json o = exp;
@@ -63,7 +70,8 @@ json observeVia(S &s, nix::Property &P, const json &exp) {
         if (!same) o["vals"] = "differ: count " + std::to_string(got.size()) + "/" + std::to_string(P.valueCount()) + " expected " + std::to_string(want.size());
     }
     boost::optional<std::string> u = P.unit();
-    o["unit"] = !u ? 0 : (*u == "mV" ? 1 : *u == "arbitrary" ? 2 : -99);
+    o["unit"] = !u ? 0 : (s.unitCode != 0 && *u == s.unitText ? s.unitCode : -99);
+    if (o["unit"] == -99) o["unit_text"] = {{"read", *u}, {"assigned", s.unitCode ? s.unitText : std::string("(none)")}};
     boost::optional<double> c = P.uncertainty();
     o["unc"] = !c ? 0 : (*c == 0.25 ? 1 : *c == 1e-300 ? 2 : -99);
     boost::optional<std::string> d = P.definition();
@@ -88,7 +96,7 @@ std::string doStep(S &s, const json &st, long k) {
     nix::Property &P = (k % 2) ? fresh : s.p;
     if (a == "Assign") return outcome([&] { P.values(concrete(s.type, v["s"], v["bad"], s.seed)); });
     if (a == "Clear") return outcome([&] { if (s.seed % 2) P.values(nix::none); else P.deleteValues(); });
-    if (a == "SetUnit") return outcome([&] { if (x == 0) P.unit(nix::none); else P.unit(x == 1 ? "mV" : "arbitrary"); });
+    if (a == "SetUnit") return outcome([&] { std::string t = x == 0 ? "" : unitText(x, k + s.seed); if (x == 0) P.unit(nix::none); else P.unit(t); s.unitText = t; s.unitCode = x; });
     if (a == "SetUnc") return outcome([&] { if (x == 0) P.uncertainty(nix::none); else P.uncertainty(x == 1 ? 0.25 : 1e-300); });
     if (a == "SetDef") return outcome([&] { if (x == 0) P.definition(nix::none); else P.definition(x == 1 ? "some definition" : ""); });
     if (a == "Reopen") return outcome([&] { s.f.close(); s.f = nix::File::open(s.path, nix::FileMode::ReadWrite); s.sec = s.f.getSection("s"); s.p = s.sec.getProperty("p"); });
